@@ -74,6 +74,13 @@ def worker_init():
     install_state_budget(600)
 
 
+_units = units
+
+
+def units(tier, seed):     # noqa: F811
+    return _units(tier, seed) + [dict(empty_dynamic=True, k=0, marks=[])]
+
+
 class Recorder:
     """accept-all (or reject reductions of one production) and record"""
 
@@ -219,7 +226,70 @@ def shape_filter(table):
     return f
 
 
+EMPTY_DYN = ('L: S | L c S;\nS: X n Y;\nX: x | EMPTY {dynamic};\n'
+             'Y: y {dynamic} | EMPTY {dynamic};\n'
+             'terminals\nn: "n";\nx: "x";\ny: "y";\nc: ",";\n')
+
+
+def empty_dynamic_unit():
+    """productions with an EMPTY right-hand side marked dynamic: the filter
+    is asked with zero sub-results, whatever the depth of the stack"""
+    mon = Monitor()
+    judge = Judge(PROP, KNOWN)
+    st = collections.Counter()
+    items = ["n", "xn", "ny", "xny"]
+    inputs = [",".join(t) for n in (1, 2, 3, 4)
+              for t in itertools.product(items, repeat=n)]
+    for kind in ("lr", "glr"):
+        rec = Recorder(None)
+        gg = grammar_from_string(EMPTY_DYN)
+        kw = dict(prefer_shifts=False, prefer_shifts_over_empty=False) \
+            if kind == "lr" else {}
+        p = build(kind, gg, mon, tag=("ed", kind), ws="", dynamic_filter=rec,
+                  **kw)
+        plain = build(kind, grammar_from_string(EMPTY_DYN), mon,
+                      tag=("ed", kind, "p"), ws="", **kw)
+        for s in inputs:
+            rec.calls = []
+            o = parse(p, s, mon)
+            o0 = parse(plain, s, mon)
+            st["evaluations"] += 1
+            st["nontrivial"] += 1
+            probs = discipline(rec.calls, gg)
+            if o.kind != "ok" or o0.kind != "ok":
+                probs.append(("parse failed", o.brief(), o0.brief()))
+            elif kind == "lr" and o.value != o0.value:
+                probs.append(("accept-all changed the LR result",))
+            elif kind == "glr" and forest_sig(o.value) != forest_sig(o0.value):
+                probs.append(("accepting filter changed the forest",))
+            asked = sum(1 for c in rec.calls[1:]
+                        if c[3] is REDUCE and c[4] is not None
+                        and len(c[4].rhs) == 0)
+            empties = sum((not it.startswith("x")) + (not it.endswith("y"))
+                          for it in s.split(","))
+            if not probs and asked < empties:
+                probs.append(("EMPTY reductions marked dynamic taken without "
+                              "asking the filter", asked))
+            if probs:
+                judge.deviation("FILTER", f"empty-dynamic/{kind}", EMPTY_DYN, s,
+                                "dynamic filter (EMPTY productions): "
+                                + str(probs[0][0]),
+                                {"problems": [list(map(str, x))
+                                              for x in probs[:5]]},
+                                {"grammar": EMPTY_DYN, "parser": kind,
+                                 "input": s, "filter": "accept",
+                                 "options": {"ws": ""}})
+    r = judge.result()
+    r.update(st)
+    r.update(states=len(mon.states), transitions=mon.transitions,
+             traces=mon.traces,
+             samples=[{"grammar": EMPTY_DYN, "inputs": len(inputs)}])
+    return r
+
+
 def run_unit(u):
+    if u.get("empty_dynamic"):
+        return empty_dynamic_unit()
     k = u["k"]
     pmarks, tmarks = u["marks"][:k], u["marks"][k:2 * k]
     nmark = u["marks"][2 * k]
